@@ -624,19 +624,12 @@ private theorem chain_pairwise (g N : Nat) (chain : List Block)
     exact List.pairwise_lt_range.imp (by intro a b h; omega)
   exact List.pairwise_map.mp this
 
-/-- whatever the arrival order, once every block of the chain has been received the history is
-    the newest `defaultHistoryDepth` blocks of the chain, newest first, with their hashes -/
-theorem history_final (g N : Nat) (chain arrivals : List Block)
-    (hnum : chain.map (·.number) = chainNumbers g N) (hbound : g + N ≤ 2 ^ 64)
+/-- `history_final` for any strictly ascending chain (a subscriber's part of the chain) -/
+private theorem history_final_pw (chain arrivals : List Block)
+    (hpw : chain.Pairwise (fun a b => a.number < b.number)) (hlt : ∀ b ∈ chain, b.number < 2 ^ 64)
     (hp : arrivals.Perm chain) :
     (trackerAfter numLt arrivals).history = newest Gen.simHistoryDepth chain := by
   obtain ⟨hwf, hget, hcov⟩ := htInv_trackerAfter numLt_strictTotal arrivals
-  have hpw := chain_pairwise g N chain hnum
-  have hlt : ∀ b ∈ chain, b.number < 2 ^ 64 := by
-    intro b hb
-    have : b.number ∈ chainNumbers g N := by rw [← hnum]; exact List.mem_map_of_mem hb
-    simp [chainNumbers] at this
-    omega
   -- the key list
   have hkeys : (trackerAfter numLt arrivals).keys = chain.map (fun b => toString b.number) := by
     have hs : (chain.map (fun b => toString b.number)).Pairwise (fun a b => numLt a b = true) := by
@@ -691,6 +684,21 @@ theorem history_final (g N : Nat) (chain arrivals : List Block)
   have hb' : b ∈ chain := List.mem_reverse.mp (List.mem_of_mem_take hb)
   simp only [Function.comp, hval b hb', Nat.mod_eq_of_lt (hlt b hb')]
 
+private theorem chain_lt (g N : Nat) (chain : List Block) (hnum : chain.map (·.number) = chainNumbers g N)
+    (hbound : g + N ≤ 2 ^ 64) : ∀ b ∈ chain, b.number < 2 ^ 64 := by
+  intro b hb
+  have : b.number ∈ chainNumbers g N := by rw [← hnum]; exact List.mem_map_of_mem hb
+  simp [chainNumbers] at this
+  omega
+
+/-- whatever the arrival order, once every block of the chain has been received the history is
+    the newest `defaultHistoryDepth` blocks of the chain, newest first, with their hashes -/
+theorem history_final (g N : Nat) (chain arrivals : List Block)
+    (hnum : chain.map (·.number) = chainNumbers g N) (hbound : g + N ≤ 2 ^ 64)
+    (hp : arrivals.Perm chain) :
+    (trackerAfter numLt arrivals).history = newest Gen.simHistoryDepth chain :=
+  history_final_pw chain arrivals (chain_pairwise g N chain hnum) (chain_lt g N chain hnum hbound) hp
+
 example : (trackerAfter numLt [⟨100, "c", [], ""⟩, ⟨98, "a", [], ""⟩, ⟨101, "d", [], ""⟩, ⟨99, "b", [], ""⟩]).history =
     newest Gen.simHistoryDepth [⟨98, "a", [], ""⟩, ⟨99, "b", [], ""⟩, ⟨100, "c", [], ""⟩, ⟨101, "d", [], ""⟩] := by decide
 
@@ -707,21 +715,13 @@ private theorem historiesFrom_getLast (lt) (arr : List Block) (m : HT) (hne : ar
       rw [List.getLast?_cons_cons]
       exact this
 
-/-- C19, history clause as the run-time oracle states it (`Spec.histsOk`): for every chain
-    `genesis … genesis+N-1` below 2^64 and every order in which a subscriber receives its blocks,
-    all histories handed out are strictly descending, at most `depth` long, made of chain blocks
-    with their hashes, and the last one is the newest blocks of the chain -/
-theorem model_histories_ok (p : Params) (chain arrivals : List Block)
+/-- `model_histories_ok` for any strictly ascending chain below 2^64 -/
+private theorem model_histories_ok_pw (p : Params) (chain arrivals : List Block)
     (hd : p.depth = Gen.simHistoryDepth)
-    (hnum : chain.map (·.number) = chainNumbers p.genesis p.count) (hbound : p.genesis + p.count ≤ 2 ^ 64)
+    (hpw : chain.Pairwise (fun a b => a.number < b.number)) (hltc : ∀ b ∈ chain, b.number < 2 ^ 64)
     (hp : arrivals.Perm chain) :
     histsOk p chain (histories numLt arrivals) = true := by
-  have hlt : ∀ b ∈ arrivals, b.number < 2 ^ 64 := by
-    intro b hb
-    have : b.number ∈ chainNumbers p.genesis p.count := by
-      rw [← hnum]; exact List.mem_map_of_mem (hp.mem_iff.mp hb)
-    simp [chainNumbers] at this
-    omega
+  have hlt : ∀ b ∈ arrivals, b.number < 2 ^ 64 := fun b hb => hltc b (hp.mem_iff.mp hb)
   have hent : ∀ h ∈ histories numLt arrivals, ∀ e ∈ h, entryInChain chain e = true := by
     unfold histories
     refine historiesFrom_all numLt_strictTotal _ arrivals ?_ arrivals [] {} (htInv_empty _) (by simp)
@@ -748,10 +748,21 @@ theorem model_histories_ok (p : Params) (chain arrivals : List Block)
         intro h; rw [h] at hp; exact hc (List.perm_nil.mp hp.symm |> fun x => x)
       unfold histories
       rw [historiesFrom_getLast numLt arrivals {} hne, hd,
-        ← history_final p.genesis p.count chain arrivals hnum hbound hp]
+        ← history_final_pw chain arrivals hpw hltc hp]
       simp [trackerAfter]
 
-example : histsOk { genesis := 98, count := 4, depth := Gen.simHistoryDepth, range := 100, reports := [], subms := [] }
+/-- C19, history clause as the run-time oracle states it (`Spec.histsOk`): for every chain
+    `genesis … genesis+N-1` below 2^64 and every order in which a subscriber receives its blocks,
+    all histories handed out are strictly descending, at most `depth` long, made of chain blocks
+    with their hashes, and the last one is the newest blocks of the chain -/
+theorem model_histories_ok (p : Params) (chain arrivals : List Block)
+    (hd : p.depth = Gen.simHistoryDepth)
+    (hnum : chain.map (·.number) = chainNumbers p.genesis p.count) (hbound : p.genesis + p.count ≤ 2 ^ 64)
+    (hp : arrivals.Perm chain) :
+    histsOk p chain (histories numLt arrivals) = true :=
+  model_histories_ok_pw p chain arrivals hd (chain_pairwise _ _ chain hnum) (chain_lt _ _ chain hnum hbound) hp
+
+example : histsOk ⟨98, 4, Gen.simHistoryDepth, 100, [], [], [], []⟩
     [⟨98, "a", [], ""⟩, ⟨99, "b", [], ""⟩, ⟨100, "c", [], ""⟩, ⟨101, "d", [], ""⟩]
     (histories numLt [⟨100, "c", [], ""⟩, ⟨98, "a", [], ""⟩, ⟨101, "d", [], ""⟩, ⟨99, "b", [], ""⟩]) = true := by decide
 
@@ -807,18 +818,23 @@ theorem same_number_same_block (g N : Nat) (chain r₁ r₂ : List Block)
   · subst h; rfl
   · have := hidx j i hj hi h; omega
 
-/-- the delivery clause as the run-time oracle states it -/
-theorem model_recv_ok (g N : Nat) (chain arrivals : List Block)
-    (hnum : chain.map (·.number) = chainNumbers g N) (hp : arrivals.Perm chain) :
+/-- `model_recv_ok` for any strictly ascending chain -/
+private theorem model_recv_ok_pw (chain arrivals : List Block)
+    (hpw : chain.Pairwise (fun a b => a.number < b.number)) (hp : arrivals.Perm chain) :
     recvOk chain arrivals = true := by
   unfold recvOk
   simp only [Bool.and_eq_true, decide_eq_true_eq, List.all_eq_true, List.contains_iff_mem]
   refine ⟨⟨hp.length_eq, ?_⟩, fun b hb => hp.mem_iff.mp hb⟩
-  have hpw := chain_pairwise g N chain hnum
   have : (chain.map (·.number)).Nodup := by
     rw [List.nodup_iff_pairwise_ne, List.pairwise_map]
     exact hpw.imp (by intro a b h; omega)
   exact (hp.map _).nodup_iff.mpr this
+
+/-- the delivery clause as the run-time oracle states it -/
+theorem model_recv_ok (g N : Nat) (chain arrivals : List Block)
+    (hnum : chain.map (·.number) = chainNumbers g N) (hp : arrivals.Perm chain) :
+    recvOk chain arrivals = true :=
+  model_recv_ok_pw chain arrivals (chain_pairwise g N chain hnum) hp
 
 example : ([⟨99, "b", [], ""⟩, ⟨98, "a", [], ""⟩] : List Block).Perm [⟨98, "a", [], ""⟩, ⟨99, "b", [], ""⟩] ∧
     ([⟨98, "a", [], ""⟩, ⟨99, "b", [], ""⟩] : List Block).map (·.number) = chainNumbers 98 2 :=
@@ -1609,8 +1625,8 @@ private theorem sortBy_sorted {α} (le : α → α → Bool)
     simp only [sortBy, List.foldr_cons]
     exact insertBy_sorted le total trans x _ ih
 
-private theorem arrivalOrder_time_sorted (cadence count : Nat) (delays : List Nat) :
-    (arrivalOrder cadence count delays).Pairwise (fun a b => a.1 ≤ b.1) := by
+private theorem arrivalOrder_time_sorted (cadence : Nat) (idx delays : List Nat) :
+    (arrivalOrder cadence idx delays).Pairwise (fun a b => a.1 ≤ b.1) := by
   unfold arrivalOrder
   refine (sortBy_sorted _ ?_ ?_ _).imp ?_
   · intro a b
@@ -1623,11 +1639,11 @@ private theorem arrivalOrder_time_sorted (cadence count : Nat) (delays : List Na
     simp only [Bool.or_eq_true, decide_eq_true_eq, Bool.and_eq_true, beq_iff_eq]
     omega
 
-private theorem arrivalOrder_indices (cadence count : Nat) (delays : List Nat) :
-    ((arrivalOrder cadence count delays).map (·.2)).Perm (List.range count) := by
+private theorem arrivalOrder_indices (cadence : Nat) (idx delays : List Nat) :
+    ((arrivalOrder cadence idx delays).map (·.2)).Perm idx := by
   unfold arrivalOrder
   have := (sortBy_perm (fun (a b : Nat × Nat) => decide (a.1 < b.1) || (a.1 == b.1 && decide (a.2 ≤ b.2)))
-    ((List.range count).map fun i => (i * cadence + delays.getD i 0, i))).map (·.2)
+    (idx.map fun i => (i * cadence + delays.getD i 0, i))).map (·.2)
   rw [List.map_map] at this
   have hid : ((fun x : Nat × Nat => x.2) ∘ fun i => (i * cadence + delays.getD i 0, i)) = id := rfl
   rw [hid, List.map_id] at this
@@ -1676,8 +1692,8 @@ private theorem timed_sorted (inp : Input) (ch : Choices) (s : Nat) :
   · exact arrivalOrder_time_sorted _ _ _
 
 private theorem timed_indices (inp : Input) (ch : Choices) (s : Nat)
-    (horders : ∀ ord, ch.orders.getD s none = some ord → ord.Perm (List.range inp.count)) :
-    ((runTimed inp ch s).map (·.2)).Perm (List.range inp.count) := by
+    (horders : ∀ ord, ch.orders.getD s none = some ord → ord.Perm (runWindow inp s)) :
+    ((runTimed inp ch s).map (·.2)).Perm (runWindow inp s) := by
   unfold runTimed
   split
   · rename_i ord h
@@ -1687,40 +1703,76 @@ private theorem timed_indices (inp : Input) (ch : Choices) (s : Nat)
     exact horders ord h
   · exact arrivalOrder_indices _ _ _
 
-private theorem perm_chain_of_indices (chain : List Block) (count : Nat) (hlen : chain.length = count)
-    (idx : List Nat) (h : idx.Perm (List.range count)) : (idx.filterMap (chain[·]?)).Perm chain := by
-  have := h.filterMap (chain[·]?)
-  rw [← hlen, range_filterMap_getElem?] at this
-  exact this
+/-- the part of the chain broadcast while subscriber `s` is attached -/
+private def winChain (inp : Input) (chain : List Block) (s : Nat) : List Block :=
+  subChain (inp.attach.getD s 0) (inp.detach.getD s 0) chain ((List.range inp.count).map (blockTime inp.cadence))
+
+private theorem filterMap_getElem?_map (n : Nat) (mk : Nat → Block) (idx : List Nat) (h : ∀ i ∈ idx, i < n) :
+    idx.filterMap (((List.range n).map mk)[·]?) = idx.map mk := by
+  induction idx with
+  | nil => rfl
+  | cons i is ih =>
+    have hi := h i (by simp)
+    rw [List.filterMap_cons, List.map_cons]
+    have : ((List.range n).map mk)[i]? = some (mk i) := by simp [hi]
+    simp only [this]
+    rw [ih (fun j hj => h j (by simp [hj]))]
+
+private theorem window_blocks (inp : Input) (mk : Nat → Block) (s : Nat) :
+    (runWindow inp s).filterMap (((List.range inp.count).map mk)[·]?) =
+      winChain inp ((List.range inp.count).map mk) s ∧
+    winChain inp ((List.range inp.count).map mk) s = (runWindow inp s).map mk := by
+  have h2 : winChain inp ((List.range inp.count).map mk) s = (runWindow inp s).map mk := by
+    unfold winChain subChain runWindow
+    rw [List.zip_map', List.filter_map, List.map_map]
+    rfl
+  refine ⟨?_, h2⟩
+  rw [h2]
+  apply filterMap_getElem?_map
+  intro i hi
+  exact List.mem_range.mp (List.mem_filter.mp hi).1
+
+private theorem winChain_sublist (inp : Input) (mk : Nat → Block) (s : Nat) :
+    (winChain inp ((List.range inp.count).map mk) s).Sublist ((List.range inp.count).map mk) := by
+  rw [(window_blocks inp mk s).2]
+  exact List.Sublist.map mk List.filter_sublist
 
 /-- what one subscriber observes in a run satisfies the delivery, history and events clauses -/
-private theorem runSub_ok (inp : Input) (ch : Choices) (chain : List Block) (s : Nat)
-    (hnum : chain.map (·.number) = chainNumbers inp.genesis inp.count)
-    (htx : ∀ b ∈ chain, (b.txs.map keyOf).Nodup)
+private theorem runSub_ok (inp : Input) (ch : Choices) (mk : Nat → Block) (s : Nat)
+    (hnumk : ∀ i, (mk i).number = inp.genesis + i)
+    (htx : ∀ b ∈ (List.range inp.count).map mk, (b.txs.map keyOf).Nodup)
     (hbound : inp.genesis + inp.count ≤ 2 ^ 64)
     (hwids : ∀ r ∈ inp.reports, r.Nodup)
-    (horders : ∀ ord, ch.orders.getD s none = some ord → ord.Perm (List.range inp.count))
-    (hrecvs : ∀ ord, ch.recvs.getD s none = some ord → ord.Perm (List.range inp.count))
+    (horders : ∀ ord, ch.orders.getD s none = some ord → ord.Perm (runWindow inp s))
+    (hrecvs : ∀ ord, ch.recvs.getD s none = some ord → ord.Perm (runWindow inp s))
     (hmid : inp.queries = [] ∨ ch.recvs.getD s none = none) :
-    recvOk chain (runSub inp ch chain s).recv = true ∧
-    histsOk (paramsOf inp) chain (runSub inp ch chain s).hists = true ∧
+    let chain := (List.range inp.count).map mk
+    recvOk (winChain inp chain s) (runSub inp ch chain s).recv = true ∧
+    histsOk (paramsOf inp) (winChain inp chain s) (runSub inp ch chain s).hists = true ∧
     subEventsOk (paramsOf inp) chain (runSub inp ch chain s) = true := by
-  have hlen : chain.length = inp.count := by
-    have := congrArg List.length hnum
-    simpa [chainNumbers] using this
+  intro chain
+  have hnum : chain.map (·.number) = chainNumbers inp.genesis inp.count := by
+    simp [chain, chainNumbers, List.map_map, Function.comp, hnumk]
   have hpw := chain_pairwise inp.genesis inp.count chain hnum
-  -- arrival order and what was received are permutations of the chain
-  have harr : ((runTimed inp ch s).filterMap fun x => chain[x.2]?).Perm chain := by
-    have := perm_chain_of_indices chain inp.count hlen _ (timed_indices inp ch s horders)
-    rwa [List.filterMap_map] at this
-  have hrecv : (runSub inp ch chain s).recv.Perm chain := by
+  have hltc := chain_lt inp.genesis inp.count chain hnum hbound
+  have hsl := winChain_sublist inp mk s
+  have hpw' : (winChain inp chain s).Pairwise (fun a b => a.number < b.number) := hpw.sublist hsl
+  -- arrival order and what was received are permutations of the subscriber's part of the chain
+  have harr : ((runTimed inp ch s).filterMap fun x => chain[x.2]?).Perm (winChain inp chain s) := by
+    have := (timed_indices inp ch s horders).filterMap (chain[·]?)
+    rw [List.filterMap_map, (window_blocks inp mk s).1] at this
+    exact this
+  have hrecv : (runSub inp ch chain s).recv.Perm (winChain inp chain s) := by
     simp only [runSub]
     split
     · rename_i ord h
-      exact perm_chain_of_indices chain inp.count hlen ord (hrecvs ord h)
+      have := (hrecvs ord h).filterMap (chain[·]?)
+      rw [(window_blocks inp mk s).1] at this
+      exact this
     · exact harr
-  refine ⟨model_recv_ok _ _ chain _ hnum hrecv, ?_, ?_⟩
-  · exact model_histories_ok (paramsOf inp) chain _ rfl hnum hbound harr
+  have hwin_sub : ∀ b ∈ winChain inp chain s, b ∈ chain := fun b hb => hsl.subset hb
+  refine ⟨model_recv_ok_pw _ _ hpw' hrecv, ?_, ?_⟩
+  · exact model_histories_ok_pw (paramsOf inp) _ _ rfl hpw' (fun b hb => hltc b (hwin_sub b hb)) harr
   · -- events
     have hanswer : ∀ (arr : List Block) (k : Nat),
         (∀ b ∈ arr, b ∈ chain) →
@@ -1749,7 +1801,7 @@ private theorem runSub_ok (inp : Input) (ch : Choices) (chain : List Block) (s :
     refine ⟨by simp [runSub], ?_⟩
     intro x hx
     have hzip : (runSub inp ch chain s).events.zip (runSub inp ch chain s).seen =
-        inp.queries.map (fun q =>
+        (inp.queries.filter fun q => decide (inp.attach.getD s 0 < q)).map (fun q =>
           ((rtAfter ((runTimed inp ch s).filterMap fun x => if x.1 * 1000 < q then chain[x.2]? else none)).latestEvents inp.reports,
            ((runTimed inp ch s).filterMap fun x => if x.1 * 1000 < q then chain[x.2]? else none).length)) ++
         [((rtAfter ((runTimed inp ch s).filterMap fun x => chain[x.2]?)).latestEvents inp.reports,
@@ -1771,14 +1823,14 @@ private theorem runSub_ok (inp : Input) (ch : Choices) (chain : List Block) (s :
       apply hanswer
       · intro b hb
         rw [hpre] at hb
-        exact harr.mem_iff.mp (List.mem_of_mem_take hb)
+        exact hwin_sub b (harr.mem_iff.mp (List.mem_of_mem_take hb))
       · intro b
         rw [hrecv_eq, ← hpre]
     · -- the final query
       simp only [List.mem_singleton] at hx
       subst hx
       apply hanswer
-      · intro b hb; exact harr.mem_iff.mp hb
+      · intro b hb; exact hwin_sub b (harr.mem_iff.mp hb)
       · intro b
         have hl : (runSub inp ch chain s).recv.length = ((runTimed inp ch s).filterMap fun x => chain[x.2]?).length := by
           rw [hrecv.length_eq, harr.length_eq]
@@ -1825,8 +1877,8 @@ private theorem mem_onChain (chain : List Block) (n : Nat) (t : Transmit) :
 theorem run_satisfies_spec (inp : Input) (ch : Choices)
     (hbound : inp.genesis + inp.count ≤ 2 ^ 64)
     (hwids : ∀ r ∈ inp.reports, r.Nodup)
-    (horders : ∀ s ord, ch.orders.getD s none = some ord → ord.Perm (List.range inp.count))
-    (hrecvs : ∀ s ord, ch.recvs.getD s none = some ord → ord.Perm (List.range inp.count))
+    (horders : ∀ s ord, ch.orders.getD s none = some ord → ord.Perm (runWindow inp s))
+    (hrecvs : ∀ s ord, ch.recvs.getD s none = some ord → ord.Perm (runWindow inp s))
     (hmid : inp.queries = [] ∨ ∀ s, ch.recvs.getD s none = none) :
     spec (paramsOf inp) (run inp ch) = true := by
   -- the loader's timeline
@@ -1845,13 +1897,17 @@ theorem run_satisfies_spec (inp : Input) (ch : Choices)
     Nat.sub_zero] at fA fB1 fB2 fC fD fE1 fE2 fF fG
   subst fE1
   have hrun : run inp ch =
-      { chain := runChain inp ch blockTxs,
+      { chain := runChain inp ch blockTxs, times := (List.range inp.count).map (blockTime inp.cadence),
         subs := (List.range inp.nsubs).map (runSub inp ch (runChain inp ch blockTxs)),
         accepted := accepted, results := runResults (runChain inp ch blockTxs) tl } := by
     simp only [run]
     rw [show (inp.txs.zipIdx.map fun (x, j) => (x, ch.winners.getD j [])) = groups from rfl, hfd]
   rw [hrun]
+  let mk : Nat → Block := fun i =>
+    { number := inp.genesis + i, hash := (ch.hashes.getD i ("", "")).1, txs := blockTxs.getD i [],
+      content := (ch.hashes.getD i ("", "")).2 }
   generalize hchain : runChain inp ch blockTxs = chain
+  have hmk : chain = (List.range inp.count).map mk := by rw [← hchain]; rfl
   have hnum : chain.map (·.number) = chainNumbers inp.genesis inp.count := by
     rw [← hchain]; exact runChain_numbers _ _ _
   have htxs : chain.map (·.txs) = blockTxs := by rw [← hchain]; exact runChain_txs _ _ _ fG
@@ -1890,17 +1946,31 @@ theorem run_satisfies_spec (inp : Input) (ch : Choices)
     · exact absurd rfl (hidx i j hi hj h t ht t ht')
     · subst h; rfl
     · exact absurd rfl (hidx j i hj hi h t ht' t ht)
+  have hzs : ∀ (f : Nat → SubOut) (n : Nat),
+      ((List.range n).map f).zip (List.range ((List.range n).map f).length) =
+        (List.range n).map (fun i => (f i, i)) := by
+    intro f n
+    rw [List.length_map, List.length_range]
+    have h := @List.zip_map' _ _ _ f id (List.range n)
+    rw [List.map_id] at h
+    exact h
+  have hsub : ∀ s, recvOk (winChain inp chain s) (runSub inp ch chain s).recv = true ∧
+      histsOk (paramsOf inp) (winChain inp chain s) (runSub inp ch chain s).hists = true ∧
+      subEventsOk (paramsOf inp) chain (runSub inp ch chain s) = true := by
+    intro s
+    subst hmk
+    exact runSub_ok inp ch mk s (fun _ => rfl) htx hbound hwids (horders s) (hrecvs s)
+      (hmid.imp id (fun h => h s))
   unfold spec
-  simp only [Bool.and_eq_true, List.all_eq_true, List.mem_map, List.mem_range]
+  simp only [hzs, Bool.and_eq_true, List.all_eq_true, List.mem_map, List.mem_range]
   refine ⟨⟨⟨⟨?_, ?_⟩, ?_⟩, ?_⟩, ?_⟩
   · -- chain
-    simp [chainOk, paramsOf, hnum]
+    have hl : chain.length = inp.count := by rw [hmk]; simp
+    simp [chainOk, paramsOf, hnum, hl]
   · rintro _ ⟨s, _, rfl⟩
-    exact (runSub_ok inp ch chain s hnum htx hbound hwids (horders s) (hrecvs s)
-      (hmid.imp id (fun h => h s))).1
+    exact (hsub s).1
   · rintro _ ⟨s, _, rfl⟩
-    exact (runSub_ok inp ch chain s hnum htx hbound hwids (horders s) (hrecvs s)
-      (hmid.imp id (fun h => h s))).2.1
+    exact (hsub s).2.1
   · -- transmits
     have hres_mem : ∀ r, r ∈ runResults chain tl ↔
         ∃ t ∈ tl.transmitted, r = { t := t, block := (chain.find? fun b => b.txs.contains t).map (·.number) } := by
@@ -1997,21 +2067,25 @@ theorem run_satisfies_spec (inp : Input) (ch : Choices)
         have := (mem_onChain chain _ t).mpr ⟨b', hb', rfl, ht'⟩
         simpa using this
   · rintro _ ⟨s, _, rfl⟩
-    exact (runSub_ok inp ch chain s hnum htx hbound hwids (horders s) (hrecvs s)
-      (hmid.imp id (fun h => h s))).2.2
+    exact (hsub s).2.2
 
 /-- the hypotheses of `run_satisfies_spec` are met by the late-block witness: blocks 97 … 104 every
     100 ms, two nodes submit the same report concurrently at 150.137 ms, subscriber 0 gets block 98
-    two seconds late, both are queried at 500.137 ms and at the end -/
+    two seconds late, subscriber 1 unsubscribes at 350.137 ms, subscriber 2 only subscribes at
+    250.137 ms; all that exist are queried at 500.137 ms and at the end -/
 example :
-    let inp : Input := ⟨97, 8, 100, 2, [[0, 2000, 0, 0, 0, 0, 0, 0], []], [["w"]], [(150137, ⟨0, 1, [0, 1]⟩)], [500137]⟩
+    let inp : Input := ⟨97, 8, 100, 3, [[0, 2000, 0, 0, 0, 0, 0, 0], [], []], [["w"]], [(150137, ⟨0, 1, [0, 1]⟩)], [500137],
+      [0, 0, 250137], [0, 350137, 0]⟩
     let ch : Choices := ⟨[], [[false, true]], [], []⟩
     spec (paramsOf inp) (run inp ch) = true ∧
     (run inp ch).accepted = [[false, true]] ∧
+    (run inp ch).subs.map (·.recv.map (·.number)) =
+      [[97, 99, 100, 101, 102, 103, 104, 98], [97, 98, 99, 100], [100, 101, 102, 103, 104]] ∧
     (run inp ch).subs.map (·.events) =
-      [[[⟨"w", 99, 3, 0, 1⟩], [⟨"w", 99, 5, 0, 1⟩]], [[⟨"w", 99, 3, 0, 1⟩], [⟨"w", 99, 5, 0, 1⟩]]] := by
+      [[[⟨"w", 99, 3, 0, 1⟩], [⟨"w", 99, 5, 0, 1⟩]], [[⟨"w", 99, 1, 0, 1⟩], [⟨"w", 99, 1, 0, 1⟩]], [[], []]] := by
   intro inp ch
-  refine ⟨run_satisfies_spec inp ch (by decide) (by decide) ?_ ?_ (Or.inr (by intro s; simp [ch])), by decide, by decide⟩
+  refine ⟨run_satisfies_spec inp ch (by decide) (by decide) ?_ ?_ (Or.inr (by intro s; simp [ch])), by decide, by decide, by decide⟩
   · intro s ord h; simp [ch] at h
   · intro s ord h; simp [ch] at h
+
 end AutoVerif.C19
